@@ -613,6 +613,29 @@ pub fn gen_call(d: &Data, r: &mut Rng) -> Call {
         words[k] = format!("{}{seg}{dia}a", if r.chance(1, 2) { "p" } else { "" });
     }
     if kind == "run" {
+        // lines may be phrases, may contain an empty word (double or leading space), may be blank
+        if r.chance(1, 5) {
+            let k = r.below(words.len());
+            let w2 = gen_word(d, r);
+            words[k] = match r.below(4) {
+                0 => format!("{}  {}", words[k], w2),
+                1 => format!(" {}", words[k]),
+                _ => format!("{} {}", words[k], w2),
+            };
+        }
+        if r.chance(1, 6) {
+            let at = r.below(words.len() + 1);
+            words.insert(at, String::new());
+        }
+        if r.chance(1, 6) {
+            // the same line again with a blank in front (an empty first word): a different line
+            let k = r.below(words.len());
+            let v = format!(" {}", words[k].trim_start());
+            if v != words[k] {
+                let at = r.below(words.len() + 1);
+                words.insert(at, v);
+            }
+        }
         // word lists contain repeats, and the same word in another spelling
         if r.chance(1, 6) {
             let w = r.pick(&words).clone();
@@ -645,6 +668,75 @@ pub fn gen_call(d: &Data, r: &mut Rng) -> Call {
     let (into, from) = if r.chance(1, 4) { gen_aliases_with_doc(d, r) } else { (vec![], vec![]) };
     let from = if kind == "run" { from } else { vec![] };
     Call { kind: kind.into(), rules: groups, words, into, from }
+}
+
+/// A sibling of a call: the same rules with ONE sign flipped inside a matrix (same text
+/// positions, other meaning), possibly through another entry point.  Anything keyed by where a
+/// rule item stands rather than by what it says shows up when both run in one process.
+pub fn sibling_call(c: &Call, r: &mut Rng) -> Option<Call> {
+    let mut sib = c.clone();
+    // candidate positions: '+' or '-' directly after '[' or ", " inside some rule
+    let mut cands: Vec<(usize, usize, usize)> = Vec::new();
+    for (gi, g) in sib.rules.iter().enumerate() {
+        for (ri, rule) in g.rule.iter().enumerate() {
+            let chars: Vec<char> = rule.chars().collect();
+            for i in 1..chars.len() {
+                if (chars[i] == '+' || chars[i] == '-') && (chars[i - 1] == '[' || chars[i - 1] == ' ') && rule[..].contains('[') {
+                    cands.push((gi, ri, i));
+                }
+            }
+        }
+    }
+    if cands.is_empty() {
+        return None;
+    }
+    let (gi, ri, ci) = *r.pick(&cands);
+    let mut chars: Vec<char> = sib.rules[gi].rule[ri].chars().collect();
+    chars[ci] = if chars[ci] == '+' { '-' } else { '+' };
+    sib.rules[gi].rule[ri] = chars.into_iter().collect();
+    match r.below(3) {
+        0 => {}
+        1 => {
+            sib.kind = "trace".into();
+            sib.words.truncate(1);
+            sib.from.clear();
+        }
+        _ => {
+            sib.kind = "changes".into();
+            sib.words.truncate(1);
+            sib.from.clear();
+        }
+    }
+    if sib.words.is_empty() {
+        return None;
+    }
+    Some(sib)
+}
+
+/// A family of calls whose rules are identical up to one modifier of a `segment:[…]` item
+/// (`a:[+long] > e`, `a:[-long] > e`, `a:[Along] > e:[Along]`), through different entry points,
+/// on a word that has the segment in both states.
+pub fn modifier_family(r: &mut Rng) -> Vec<Call> {
+    let seg: &str = *r.pick(&["a", "i", "u", "e", "o", "t", "k", "s", "n"][..]);
+    let to: &str = *r.pick(&["e", "o", "ə", "d", "x", "z", "m"][..]);
+    let f: &str = *r.pick(&["long", "stress", "long", "stress", "nasal"][..]);
+    let other: &str = *r.pick(&["p", "t", "m", "a", "i"][..]);
+    let word = match f {
+        "long" => format!("{seg}ː.{other}{seg}.{seg}{other}ː"),
+        "stress" => format!("ˈ{seg}{other}.{seg}.{other}{seg}"),
+        _ => format!("{seg}.{other}{seg}{other}"),
+    };
+    let mk = |kind: &str, rule: String| Call { kind: kind.into(), rules: vec![Group { name: "g0".into(), rule: vec![rule], description: String::new() }], words: vec![word.clone()], into: vec![], from: vec![] };
+    let mut v = vec![
+        mk("run", format!("{seg}:[+{f}] > {to}")),
+        mk("run", format!("{seg}:[-{f}] > {to}")),
+        mk("trace", format!("{seg}:[-{f}] > {to}")),
+        mk("trace", format!("{seg}:[+{f}] > {to}")),
+        mk("changes", format!("{seg}:[A{f}] > {to}:[A{f}]")),
+        mk("run", format!("{seg}:[A{f}] > {to}:[A{f}]")),
+    ];
+    r.shuffle(&mut v);
+    v
 }
 
 /// corpus cross product sample: a test rule applied to a handful of test words
